@@ -860,6 +860,9 @@ func Run(c *core.Ctx) {
 				}
 				zeroPPos(base)
 			}
+			if c.G.Chance(0.35) {
+				pctNames(c.G, base)
+			}
 			return base
 		}
 		for i := 0; i < m; i++ {
@@ -874,6 +877,21 @@ func Run(c *core.Ctx) {
 		for i := 0; i < c.Scale(12, 80); i++ {
 			doGlue(c, glue[i%len(glue)], cliTree("t"))
 		}
+	}
+}
+
+// pctNames gives the tips names with printf-active text (seeded change C17-12: the Newick text
+// used as a format string by cmd/nni.go): a%20b, 100%, %d, %s, %%, %v ...
+func pctNames(g *core.G, n *core.N) {
+	suffix := []string{"%20b", "_100%", "%d", "%s", "%%", "%v_x", "%5.2f", "%!", "%"}
+	if len(n.Kids) == 0 {
+		if n.Name != "" && g.Chance(0.7) {
+			n.Name = n.Name + suffix[g.Intn(len(suffix))]
+		}
+		return
+	}
+	for _, k := range n.Kids {
+		pctNames(g, k)
 	}
 }
 
